@@ -1,5 +1,6 @@
 import YakModel.Proto.NodeSet
 import YakModel.Proofs.NodeSetC04
+import YakModel.Proofs.AbsorbProofs
 /-!
 # C04 — Concurrent scans are per-key consistent and never lose a stable key
 
@@ -113,5 +114,54 @@ theorem stable_keys_witness : ∃ s0 s1 s, Reach ⟨3⟩ s0 ∧ step? ⟨3⟩ s0
         · unfold Present; rw [hv0.1]; decide
         · unfold Present; rw [hv0.1]; decide
         · unfold Present; rw [hv.2]; decide
+
+/-! ### Removes that empty and unlink leaves (`Proto/Absorb`)
+
+`NodeSet` has no removes. `Proto/Absorb` is the complementary model: a chain of fenced leaves under
+inserts, splits and removes that **unlink an emptied leaf, whose key range is absorbed by a
+neighbour** (the parent drops one child and one separator; separators are never recomputed), with
+scanners whose visit of a leaf is one validated read. `Cfg.fix` selects the repaired `scan_border`
+(commit "fix: a forward scan skips keys that are not greater than what earlier nodes contributed"):
+entries `≤` the last key collected before the current leaf are skipped. With the repair the result
+is strictly ascending and no stable key is lost; without it `D13_counterexample` is the execution
+found on the real code (`corpus/C04/d13_absorbed_range.json`: `k03 k02y k11`). -/
+
+/-- with the repair, every partial and final result is strictly ascending and inside the interval,
+    whatever inserts, splits, removes and unlinks (either absorb direction) interleave. -/
+theorem absorb_scan_sorted (c : Yak.Proto.Absorb.Cfg) (hf : c.fix = true) (s : Yak.Proto.Absorb.State)
+    (h : Yak.Proto.Absorb.Reach c s) (t a b : Nat) (res : List Nat) (cur : Nat)
+    (hs : s.sc t = Yak.Proto.Absorb.SPc.at a b res cur ∨ s.sc t = Yak.Proto.Absorb.SPc.fin a b res) :
+    res.Pairwise (· < ·) ∧ ∀ r ∈ res, a ≤ r ∧ r ≤ b := Yak.Proto.Absorb.scan_sorted_fixed hf h hs
+
+/-- the repair loses nothing: a key of the interval that is stored when the scan returns and was
+    neither inserted nor removed since the scan was invoked (so it was stored throughout) is in
+    the result. -/
+theorem absorb_stable_key_returned (c : Yak.Proto.Absorb.Cfg) (hf : c.fix = true)
+    (s : Yak.Proto.Absorb.State) (h : Yak.Proto.Absorb.Reach c s)
+    (t a b : Nat) (res : List Nat) (hs : s.sc t = Yak.Proto.Absorb.SPc.fin a b res) (k : Nat)
+    (ha : a ≤ k) (hb : k ≤ b) (hk : Yak.Proto.Absorb.Stable s t k) : k ∈ res :=
+  Yak.Proto.Absorb.stable_key_returned_fixed hf h hs ha hb hk
+
+/-- every reported key was stored at some moment of the scan (any cfg). -/
+theorem absorb_result_was_present (c : Yak.Proto.Absorb.Cfg) (hist : List Yak.Proto.Absorb.State)
+    (s : Yak.Proto.Absorb.State) (h : Yak.Proto.Absorb.Hist c hist s)
+    (t a b : Nat) (res : List Nat) (hs : Yak.Proto.Absorb.Holds s t a b res) :
+    ∀ r ∈ res, ∃ s1 ∈ hist, (∃ res1 cur1, s1.sc t = Yak.Proto.Absorb.SPc.at a b res1 cur1) ∧
+      Yak.Proto.Absorb.Present s1 r :=
+  Yak.Proto.Absorb.scan_result_was_present h hs
+
+/-- D13 on the unrepaired scan: the left leaf is emptied and unlinked behind the scanner, its right
+    neighbour absorbs the range and receives a smaller key: the result is `[3, 2, 11]`. -/
+theorem D13_counterexample :
+    Yak.Proto.Absorb.scanOutcome {fix := false} Yak.Proto.Absorb.D13_evs 0 =
+      some (Yak.Proto.Absorb.SPc.fin 0 100 [3, 2, 11]) ∧ ¬ [3, 2, 11].Pairwise (· < ·) :=
+  ⟨Yak.Proto.Absorb.D13_counterexample, Yak.Proto.Absorb.D13_not_sorted⟩
+
+/-- the same schedule under the repair (non-vacuity of the two theorems above: the absorbing
+    scenario is reachable with `fix`, the stable key 11 is reported, the late key 2 is not). -/
+theorem D13_fixed_run :
+    Yak.Proto.Absorb.scanOutcome {fix := true} Yak.Proto.Absorb.D13_evs 0 =
+      some (Yak.Proto.Absorb.SPc.fin 0 100 [3, 11]) :=
+  Yak.Proto.Absorb.D13_fixed_run
 
 end Yak.Props.C04
